@@ -29,6 +29,7 @@ inductive Out
   | ok (patches : List (Str × Str))
   | no
   | panic
+  | fuel        -- the recursion bound of the model was hit (never from `gen`: `C13_pom_props_fuel_adequate`)
 deriving Repr, DecidableEq
 
 /-- the resulting Go map: last assignment wins -/
@@ -44,7 +45,7 @@ def setPatch (acc : List (Str × Str)) (name v : Str) : Option (List (Str × Str
 /-- `generatePropertyPatchesAux`; `fuel` bounds the recursion depth (each call drops at least the first
 placeholder of `s1`), `acc` is the `patches` map so far -/
 def aux : Nat → Str → Str → List (Str × Str) → Out
-  | 0, _, _, _ => .no
+  | 0, _, _, _ => .fuel
   | fuel + 1, s1, s2, acc =>
     match indexOf dollarBrace s1 with
     | none => .no                                               -- start < 0
